@@ -4,19 +4,19 @@ CONSTANTS
   InitCfg = "abc"
   CfgTab <- Tab3
   MaxTerm = 3
-  MaxLog = 2
-  MaxClient = 0
-  MaxCrash = 1
-  MaxMsgs = 3
+  MaxLog = 3
+  MaxClient = 1
+  MaxCrash = 0
+  MaxMsgs = 2
   MaxSnap = 0
   MaxMember = 0
-  MaxTimeout = 2
+  MaxTimeout = 1
   MaxDrop = 0
-  MaxDup = 0
+  MaxDup = 1
   MaxMisc = 0
   MaxAppend = 2
   Trailing = 1
-  Features = {"crash"}
+  Features = {"client", "dup"}
 VIEW view
 INVARIANTS ElectionSafety OneVotePerTerm TermDurable CommittedFunctional CommittedStable LeaderComplete LogMatching TermsMonotoneM CommitBounded CommitJustified FsmOnlyCommitted FsmInOrder FsmAgree OneUncommittedCfg NoHoleM ReportedCovered
 CHECK_DEADLOCK FALSE
